@@ -240,6 +240,39 @@ func c11Sign(r *Run, t *tape.Tape) {
 			r.Fail("half-signed-message-encodes", "a COSE_Sign with an empty signature slot (or none) was encoded: %s", hexShort(b))
 		}
 	}
+	// the operator repairs the failing signer and tries again on the same
+	// message object with fresh signature holders: this second call is a
+	// complete signing run of its own
+	if err != nil && anyFault && ns == n && n > 0 && t.Bool(1, 2, "c11.retry") {
+		for i := range m.Signatures {
+			m.Signatures[i] = &cose.Signature{Headers: m.Signatures[i].Headers}
+		}
+		healthy := make([]cose.Signer, n)
+		for i := 0; i < n; i++ {
+			healthy[i] = r.signerFor(spec.Signers[i].Key, false)
+		}
+		var err2 error
+		r.Lib(func() { err2 = m.Sign(ent, spec.External, healthy...) })
+		r.Fired("sign.retry-after-signer-failure")
+		r.Check()
+		if err2 == nil {
+			for i, sg := range m.Signatures {
+				if len(sg.Signature) == 0 {
+					r.Fail("retry-leaves-slot-empty", "after a failed Sign, a second Sign with healthy signers and fresh signature holders returned nil but slot %d of %d is empty", i, n)
+					return
+				}
+			}
+			vs := make([]cose.Verifier, n)
+			for i := 0; i < n; i++ {
+				vs[i] = r.verifierFor(spec.Signers[i].Key, false)
+			}
+			var verr error
+			r.Lib(func() { verr = m.Verify(spec.External, vs...) })
+			if verr != nil {
+				r.Fail("retry-result-does-not-verify", "the message signed by the second attempt does not verify: %v", verr)
+			}
+		}
+	}
 }
 
 // c11Verify: positional, all-or-nothing verification.
